@@ -2,10 +2,28 @@
   C04 helper lemmas, part 10: `Relation.Join` (with its short-cuts and the re-sugaring branch) and `Joiner`
   refine the specification.  Core-only.
 -/
-import Arrai.C04.LemmasRelJoin
+import Arrai.C04.LemmasWF
 
 namespace Arrai.C04
 open Spec Impl
+
+theorem no_intersect' (op : JoinOp) (A1 A2 : Names) :
+    hasIntersect (partitionNames op A1 A2 (intersect A1 A2)).1 (partitionNames op A1 A2 (intersect A1 A2)).2
+      = false := by
+  rw [hasIntersect_eq, Bool.eq_false_iff]
+  intro h
+  obtain ⟨n, h1, h2⟩ := (meets_iff _ _).1 h
+  have hsh := partition_shape A1 A2 op
+  rw [hsh.1 n] at h1
+  rw [hsh.2 n] at h2
+  have hdis := flags_disjoint op (isSubset A1 A2) (isSubset A2 A1)
+  generalize (flagsOf op (isSubset A1 A2) (isSubset A2 A1)).fX = fX at *
+  generalize (flagsOf op (isSubset A1 A2) (isSubset A2 A1)).fY = fY at *
+  generalize (flagsOf op (isSubset A1 A2) (isSubset A2 A1)).gY = gY at *
+  generalize (flagsOf op (isSubset A1 A2) (isSubset A2 A1)).gZ = gZ at *
+  unfold cX cY cZ at *
+  cases A1.contains n <;> cases A2.contains n <;> cases fX <;> cases fY <;> cases gY <;> cases gZ <;>
+    simp_all
 
 /-! ### the re-sugaring branch -/
 
@@ -25,12 +43,58 @@ theorem finish_map_some (rows : List Row) (g : Row → V) :
   | nil => simp
   | cons r rs ih => simp [ih.1, ih.2]
 
+theorem has_pair' (a : String) (i v : V) (n : String) : has [("@", i), (a, v)] n = ["@", a].contains n := by
+  unfold has
+  simp only [get_cons, get_nil, List.contains_cons, List.contains_nil, Bool.or_false]
+  by_cases e1 : "@" = n
+  · subst e1; simp
+  · by_cases e2 : a = n
+    · subst e2; simp [e1]
+    · have h1 : (n == "@") = false := by simp; exact fun h => e1 h.symm
+      have h2 : (n == a) = false := by simp; exact fun h => e2 h.symm
+      simp [e1, e2, h1, h2]
+
+theorem nodup_filter {l : Names} (p : String → Bool) (h : l.Nodup) : (l.filter p).Nodup :=
+  List.Pairwise.filter p h
+
+theorem partition_nodup (op : JoinOp) (A1 A2 : Names) (h1 : A1.Nodup) (h2 : A2.Nodup) :
+    ((partitionNames op A1 A2 (intersect A1 A2)).1 ++ (partitionNames op A1 A2 (intersect A1 A2)).2).Nodup := by
+  have hc : (intersect A1 A2).Nodup := by
+    unfold intersect; split
+    · exact nodup_filter _ h1
+    · exact nodup_filter _ h2
+  rw [List.nodup_append]
+  refine ⟨?_, ?_, ?_⟩
+  · cases op <;> simp only [partitionNames]
+    case join => split; exact List.nodup_nil; split <;> exact h1
+    case compose => exact nodup_filter _ h1
+    case common => exact hc
+    case exists_ => exact List.nodup_nil
+    case rmatch => exact List.nodup_nil
+    case lmatch => exact h1
+    case rres => exact List.nodup_nil
+    case lres => exact nodup_filter _ h1
+  · cases op <;> simp only [partitionNames]
+    case join => split; exact h2; split; exact List.nodup_nil; exact nodup_filter _ h2
+    case compose => exact nodup_filter _ h2
+    case common => exact List.nodup_nil
+    case exists_ => exact List.nodup_nil
+    case rmatch => exact h2
+    case lmatch => exact List.nodup_nil
+    case rres => exact nodup_filter _ h2
+    case lres => exact List.nodup_nil
+  · intro a ha b hb e
+    subst e
+    have := no_intersect' op A1 A2
+    rw [hasIntersect_eq, Bool.eq_false_iff] at this
+    exact this ((meets_iff _ _).2 ⟨a, List.contains_iff_mem.2 ha, List.contains_iff_mem.2 hb⟩)
+
 theorem resugar_den (H : Names) (at_ val : Nat) (rows : List Row) (k : SeqKind)
     (hH : H.length = 2) (hav : (at_ = 0 ∧ val = 1) ∨ (at_ = 1 ∧ val = 0))
     (hat : H.getD at_ "" = "@") (hs : isSugarAttr (H.getD val "") = some k)
     (hrows : ∀ row ∈ rows, row.length = 2) :
     ∃ res, resugar (List.range 2) H at_ val rows = .ok res ∧
-      den res = denRows (rows.map fun row => H.zip row) := by
+      den res = denRows (rows.map fun row => H.zip row) ∧ RepOK res := by
   match H, hH with
   | [h0, h1], _ =>
     -- the tuple built for a row, as an attribute list
@@ -43,11 +107,19 @@ theorem resugar_den (H : Names) (at_ val : Nat) (rows : List Row) (k : SeqKind)
     have hms : rows.map (resugarRow (List.range 2) [h0, h1] at_ val) =
         rows.map fun row => some (V.mkTup (tl row)) := List.map_congr_left hf
     obtain ⟨hany, hfm⟩ := finish_map_some rows (fun row => V.mkTup (tl row))
-    refine ⟨ofMembers (rows.map fun row => V.mkTup (tl row)), ?_, ?_⟩
+    refine ⟨ofMembers (rows.map fun row => V.mkTup (tl row)), ?_, ?_, ?_⟩
     · unfold resugar
       simp only []
       rw [hms, hany, hfm]
       rfl
+    rotate_left
+    · apply ofMembers_ok _ ["@", [h0, h1].getD val ""]
+      intro x hx
+      obtain ⟨row, _, e⟩ := List.mem_map.1 hx
+      rw [← e]
+      refine ⟨canonT_mkTup _, fun n => ?_⟩
+      rw [has_tupOf_mkTup]
+      exact has_pair' _ _ _ n
     · rw [den_ofMembers _ (by
         intro x hx
         obtain ⟨row, _, e⟩ := List.mem_map.1 hx
@@ -121,7 +193,7 @@ theorem relationJoin_refines (op : JoinOp) (r1 r2 : Relation) (w1 : RelWF r1) (w
     ∃ res, relationJoin r1 r2 (intersect r1.attrs r2.attrs)
         (partitionNames op r1.attrs r2.attrs (intersect r1.attrs r2.attrs)).1
         (partitionNames op r1.attrs r2.attrs (intersect r1.attrs r2.attrs)).2 = .ok res ∧
-      den res = Spec.join op (den (.relation r1)) (den (.relation r2)) := by
+      den res = Spec.join op (den (.relation r1)) (den (.relation r2)) ∧ RepOK res := by
   -- notation
   generalize hcm : intersect r1.attrs r2.attrs = common
   generalize hlo' : (partitionNames op r1.attrs r2.attrs common).1 = lo
@@ -172,7 +244,7 @@ theorem relationJoin_refines (op : JoinOp) (r1 r2 : Relation) (w1 : RelWF r1) (w
   by_cases he : rows.isEmpty = true
   · -- False
     rw [if_pos he]
-    refine ⟨_, rfl, ?_⟩
+    refine ⟨_, rfl, ?_, ⟨trivial, [], rfl⟩⟩
     have : rows = [] := by simpa using he
     subst this
     rfl
@@ -180,7 +252,7 @@ theorem relationJoin_refines (op : JoinOp) (r1 r2 : Relation) (w1 : RelWF r1) (w
     by_cases ht : isLiteralTrue rows = true
     · -- True
       rw [if_pos ht]
-      refine ⟨_, rfl, ?_⟩
+      refine ⟨_, rfl, ?_, ⟨trivial, [], rfl⟩⟩
       have hall := all_nil_of_literalTrue ht
       unfold den denRows
       apply mkSet_congr
@@ -202,10 +274,17 @@ theorem relationJoin_refines (op : JoinOp) (r1 r2 : Relation) (w1 : RelWF r1) (w
         rw [← e2, ← e1]
         simp [V.mkTup]
     · rw [if_neg ht]
+      have hnd : (lo ++ ro).Nodup := by
+        have := partition_nodup op r1.attrs r2.attrs w1.1 w2.1
+        rw [hcm, hlo', hro'] at this; exact this
       have hplain : den (.relation ⟨lo ++ ro, List.range (lo.length + ro.length), rows⟩) =
-          denRows (rows.map fun row => (lo ++ ro).zip row) := by
+          denRows (rows.map fun row => (lo ++ ro).zip row) ∧
+          RepOK (.relation ⟨lo ++ ro, List.range (lo.length + ro.length), rows⟩) := by
         rw [← List.length_append]
-        exact enumerate_relation' (lo ++ ro) rows hlen
+        exact ⟨enumerate_relation' (lo ++ ro) rows hlen,
+          ⟨hnd, rfl, hlen, fun e => he (by
+            have e' : rows = [] := e
+            rw [e']; rfl)⟩, lo ++ ro, rfl⟩
       by_cases h2 : ((lo ++ ro).length == 2) = true
       · rw [if_pos h2]
         have hH2 : (lo ++ ro).length = 2 := by simpa using h2
@@ -254,11 +333,41 @@ theorem join_empty_right (op : JoinOp) (A : V) : Spec.join op A (V.mkSet []) = V
   rw [this]
   rfl
 
+/-- the generic path: the result denotes the specified join and is a well-formed operand with a heading -/
+theorem genericPath_refines_ok (op : JoinOp) (a b : Rep) (aN bN : Names) (wa : RepWF a) (wb : RepWF b)
+    (ha : relationAttrs a = some aN) (hb : relationAttrs b = some bN) :
+    ∃ r, genericPath op a b = .ok r ∧ den r = Spec.join op (den a) (den b) ∧ RepOK r := by
+  obtain ⟨r, hr, hden⟩ := genericPath_refines op a b aN bN wa wb ha hb
+  refine ⟨r, hr, hden, ?_⟩
+  obtain ⟨h1, h2, h3⟩ := generic_members op aN bN (enumerate a) (enumerate b)
+    (wfMembers_enumerate a aN wa ha) (wfMembers_enumerate b bN wb hb)
+  have hr' : genericPath op a b = .ok (ofMembers ((genericJoin (enumerate a) (enumerate b)
+      (projectT (aN.filter bN.contains)) (combine op (aN.filter bN.contains))).filterMap id)) := by
+    unfold genericPath
+    simp only [ha, hb]
+    exact finish_ok _ h1
+  rw [hr'] at hr
+  injection hr with hr
+  subst hr
+  apply ofMembers_ok _ ((aN ++ bN).filter (keep op aN bN))
+  intro z hz
+  refine ⟨h2 z hz, fun n => ?_⟩
+  obtain ⟨t, ht, et⟩ := h3.1 (tupOf z) (List.mem_map.2 ⟨z, hz, rfl⟩)
+  obtain ⟨tx, htx, ty, hty, _, e⟩ := (mem_joinRows op _ _ t).1 ht
+  obtain ⟨x, hx, ex⟩ := List.mem_map.1 htx
+  obtain ⟨y, hy, ey⟩ := List.mem_map.1 hty
+  subst ex; subst ey; subst e
+  rw [has_congr et, has_joined op aN bN _ _ (wfMembers_enumerate a aN wa ha x hx).2
+    (wfMembers_enumerate b bN wb hb y hy).2, contains_filter]
+  unfold keep
+  rw [List.contains_append]
+  cases aN.contains n <;> cases bN.contains n <;> simp
+
 /-- `Joiner` refines the specification on every pair of well-formed operands that are relations -/
 theorem joiner_refines (op : JoinOp) (a b : Rep) (aN bN : Names) (wa : RepWF a) (wb : RepWF b)
     (ha : relationAttrs a = some aN) (hb : relationAttrs b = some bN) :
-    ∃ res, joiner op a b = .ok res ∧ den res = Spec.join op (den a) (den b) := by
-  have hgen := genericPath_refines op a b aN bN wa wb ha hb
+    ∃ res, joiner op a b = .ok res ∧ den res = Spec.join op (den a) (den b) ∧ RepOK res := by
+  have hgen := genericPath_refines_ok op a b aN bN wa wb ha hb
   have hgp : ∀ a b : Rep, genericPath op a b =
       (match relationAttrs a, relationAttrs b with
        | some aNames, some bNames =>
@@ -266,10 +375,10 @@ theorem joiner_refines (op : JoinOp) (a b : Rep) (aN bN : Names) (wa : RepWF a) 
            (combine op (aNames.filter bNames.contains)))
        | _, _ => .err) := fun _ _ => rfl
   cases a with
-  | empty => exact ⟨.empty, rfl, (join_empty_left op _).symm⟩
+  | empty => exact ⟨.empty, rfl, (join_empty_left op _).symm, trivial, [], rfl⟩
   | relation r1 =>
     cases b with
-    | empty => exact ⟨.empty, rfl, (join_empty_right op _).symm⟩
+    | empty => exact ⟨.empty, rfl, (join_empty_right op _).symm, trivial, [], rfl⟩
     | relation r2 => exact relationJoin_refines op r1 r2 wa wb
     | true_ => exact hgen
     | seq k ps => exact hgen
@@ -277,7 +386,7 @@ theorem joiner_refines (op : JoinOp) (a b : Rep) (aN bN : Names) (wa : RepWF a) 
     | union xs => exact hgen
   | true_ =>
     cases b with
-    | empty => exact ⟨.empty, rfl, (join_empty_right op _).symm⟩
+    | empty => exact ⟨.empty, rfl, (join_empty_right op _).symm, trivial, [], rfl⟩
     | relation r2 => exact hgen
     | true_ => exact hgen
     | seq k ps => exact hgen
@@ -285,7 +394,7 @@ theorem joiner_refines (op : JoinOp) (a b : Rep) (aN bN : Names) (wa : RepWF a) 
     | union xs => exact hgen
   | seq k1 ps1 =>
     cases b with
-    | empty => exact ⟨.empty, rfl, (join_empty_right op _).symm⟩
+    | empty => exact ⟨.empty, rfl, (join_empty_right op _).symm, trivial, [], rfl⟩
     | relation r2 => exact hgen
     | true_ => exact hgen
     | seq k ps => exact hgen
@@ -293,7 +402,7 @@ theorem joiner_refines (op : JoinOp) (a b : Rep) (aN bN : Names) (wa : RepWF a) 
     | union xs => exact hgen
   | generic xs1 =>
     cases b with
-    | empty => exact ⟨.empty, rfl, (join_empty_right op _).symm⟩
+    | empty => exact ⟨.empty, rfl, (join_empty_right op _).symm, trivial, [], rfl⟩
     | relation r2 => exact hgen
     | true_ => exact hgen
     | seq k ps => exact hgen
